@@ -4,12 +4,16 @@
    iterations.  Every theorem about the optimiser holds for EVERY linear solver (`solver_t`: any
    function producing a 2p-vector, i.e. any sequence of Newton directions): a wrong direction can
    delay the exit through the duality-gap rule, it cannot falsify the certificate.
+   Section 6 proves that the EXECUTABLE definitions the correspondence check runs (`optimize`,
+   `lasso_fit`, `enet_fit`, with the model of the code's preconditioned BiCG as the solver) are
+   instances of that transition system and restates the certificate about them with no solver
+   parameter left; section 7 is the partial correctness (residual identity) of the BiCG loop.
    The convergence of the iteration (that the gap rule is reached within max_iter, that PCG returns
    a usable direction, that the line search accepts) is NOT a theorem: see meta/C08.json. *)
 From Coquelicot Require Import Coquelicot.
 From Coq Require Import List ZArith Reals Lra Bool Floats.
 From SC Require Import Base.Num C08.Model C08.ProofsBase C08.ProofsDual C08.ProofsFit C08.ProofsGap C08.ProofsEnd C08.ProofsExamples C08.ProofsExamples2
-  C08.ProofsNewton C08.ProofsDeriv C08.ProofsNewtonExamples.
+  C08.ProofsNewton C08.ProofsDeriv C08.ProofsNewtonExamples C08.ProofsRefine C08.ProofsRefineExamples C08.ProofsEnet C08.ProofsPcg C08.ProofsPcgExamples.
 Import ListNotations.
 Local Open Scope R_scope.
 
@@ -356,3 +360,236 @@ Example C08_prs_cancels_in_binary64 :
    nw_prs (newton_system FOps [[1]] 1 1 w u [0]) = [0] /\
    nw_prb (newton_system FOps [[1]] 1 1 w u [0]) = nw_d1 (newton_system FOps [[1]] 1 1 w u [0]))%float.
 Proof. exact prs_cancels_in_binary64. Qed.
+
+(* ------------------------------------------------------------------------------------------- *)
+(* 6. the EXECUTABLE optimiser (what the correspondence check runs) is an instance of sections 1-4 *)
+(* ------------------------------------------------------------------------------------------- *)
+(* `optimize` = `optimize_gen` with the model of the code's preconditioned-BiCG solver (`pcg_solver`:
+   `solve_mut` / `pcg_loop` on `ip_mat_vec` / `ip_precond`, warm-started from the last direction).
+   Sections 1-4 quantify over solvers that answer with 2p numbers on EVERY call (`solver_shape`);
+   pcg_solver answers with min(2p, |warm start|) numbers, so it has that shape exactly on the states
+   whose warm start has 2p entries.  The refinement theorem: (a) every state the executable loop
+   reaches is such a state (and satisfies the invariants: strictly interior iterate, running dual value
+   a lower bound), and on such states whatever pcg_solver returns — ANY numbers, nothing is assumed
+   or proved about their accuracy here — is a legal direction of the transition system; (b) whatever
+   optimize returns was produced by a path of the transition system (`reachable`) ending in the
+   matching rule: `IpStop` (the exit test `gap/dobj < tol || gap <= 0`) for ExitGap, the exhausted
+   `for ntiter in 0..max_iter` for ExitMaxIter, `IpFail` (solver Err, or line search exhausted on a
+   non-finite direction) for None; (c) the same run is `optimize_gen` of a solver that has
+   `solver_shape` unconditionally (pcg_solver made to fail off the reachable shapes), with exactly
+   the same reachable states — so every theorem of sections 1-4 applies to the executable loop. *)
+Theorem C08_optimize_refines_ts : forall X y lam max_iter tol,
+  length y = length X ->
+  let lam' := lam_used lam in
+  let yc := center ROps y in
+  let p := ncols X in
+  let S := pcg_solver ROps X lam' in
+  (forall k st, reachable S X yc lam' tol p k st ->
+     ip_inv X yc lam' p st /\ length (st_dxu st) = (2 * p)%nat) /\
+  (forall k st z gap b dxu, length (st_w st) = p -> length (st_dxu st) = (2 * p)%nat ->
+     S k st z gap = Some (b, dxu) -> length dxu = (2 * p)%nat) /\
+  match optimize ROps X y lam max_iter tol with
+  | Some (w, ExitGap, d) =>
+      exists j st po, (0 <= j < 0 + max_iter)%nat /\ reachable S X yc lam' tol p j st /\
+                      ip_iter ROps S X yc lam' tol j st = IpStop w po d
+  | Some (w, ExitMaxIter, d) =>
+      exists st, reachable S X yc lam' tol p (0 + max_iter) st /\ w = st_w st /\ d = st_dobj st
+  | None =>
+      exists j st, (0 <= j < 0 + max_iter)%nat /\ reachable S X yc lam' tol p j st /\
+                   ip_iter ROps S X yc lam' tol j st = IpFail
+  end /\
+  solver_shape (guard_solver p S) p /\
+  (forall k st, reachable S X yc lam' tol p k st <-> reachable (guard_solver p S) X yc lam' tol p k st) /\
+  optimize ROps X y lam max_iter tol = optimize_gen ROps (guard_solver p S) X y lam max_iter tol.
+Proof. exact optimize_refines_ts. Qed.
+
+(* The corollary stated directly about the executable optimize: an `Ok(w)` through the gap rule has
+   p coefficients, the reported dual value is a lower bound of the objective everywhere, and w is
+   within a factor (1 + tol) of the minimum of |Xw - (y - mean y)|^2 + max(lam,eps)|w|_1 over R^p.
+   No hypothesis about the solver, the fuel or the iteration count is left: the Err exit (None) and
+   the iteration-budget exit (ExitMaxIter) are excluded by the hypothesis, not totalised away. *)
+Theorem C08_optimize_gap_exit_near_optimal : forall X y lam max_iter tol w d,
+  length y = length X -> 0 <= tol ->
+  optimize ROps X y lam max_iter tol = Some (w, ExitGap, d) ->
+  length w = ncols X /\
+  forall w', length w' = ncols X ->
+    d <= lasso_objective ROps X (center ROps y) (lam_used lam) w' /\
+    lasso_objective ROps X (center ROps y) (lam_used lam) w
+    <= (1 + tol) * lasso_objective ROps X (center ROps y) (lam_used lam) w'.
+Proof. exact optimize_gap_exit_near_optimal. Qed.
+
+(* whatever exit (gap rule or iteration budget): the reported dual value is a lower bound *)
+Theorem C08_optimize_any_exit_lower_bound : forall X y lam max_iter tol w r d,
+  length y = length X ->
+  optimize ROps X y lam max_iter tol = Some (w, r, d) ->
+  length w = ncols X /\
+  forall w', length w' = ncols X -> d <= lasso_objective ROps X (center ROps y) (lam_used lam) w'.
+Proof. exact optimize_any_exit_lower_bound. Qed.
+
+Example C08_optimize_exec_sat :
+  optimize ROps [[1]; [-1]] [1; -1] (2 * IZR (Z.of_nat 2)) 1 (1 / 10) = Some ([0], ExitGap, 2).
+Proof. exact ex_optimize_exec. Qed.
+
+(* the binary64 instance of the same executable definition really iterates before it leaves through
+   the gap rule (budgets of 1 and 3 outer iterations are exhausted, 100 are not) *)
+Example C08_optimize_exec_binary64_runs :
+  exit_of (optimize FOps exf_X exf_y 1%float 1 0x1p-10%float) = Some ExitMaxIter /\
+  exit_of (optimize FOps exf_X exf_y 1%float 3 0x1p-10%float) = Some ExitMaxIter /\
+  exit_of (optimize FOps exf_X exf_y 1%float 100 0x1p-10%float) = Some ExitGap.
+Proof. exact ex_optimize_binary64_runs. Qed.
+
+(* Lasso::fit and ElasticNet::fit as executed (`lasso_fit`, `enet_fit`: the code's own solver):
+   C08_lasso_fit_certified / C08_enet_fit_certified without the solver parameter and its shape
+   hypothesis. *)
+Theorem C08_lasso_fit_exec_certified : forall X y alpha normalize tol max_iter Z w d,
+  Forall (fun row => length row = ncols X) X ->
+  lasso_valid ROps (length X) (ncols X) (length y) alpha tol max_iter = true ->
+  design normalize X = Some Z ->
+  let l1 := alpha * IZR (Z.of_nat (length X)) in
+  optimize ROps Z y l1 max_iter tol = Some (w, ExitGap, d) ->
+  exists coef b,
+    lasso_fit ROps X y alpha normalize tol max_iter = Some (coef, b) /\
+    predict ROps X coef b = map (fun v => v + vmean ROps y) (matvec ROps Z w) /\
+    forall w', length w' = ncols X ->
+      lasso_objective ROps Z (center ROps y) (lam_used l1) w
+      <= (1 + tol) * lasso_objective ROps Z (center ROps y) (lam_used l1) w'.
+Proof. exact lasso_fit_exec_certified. Qed.
+
+Example C08_lasso_fit_exec_certified_sat :
+  let X := [[1]; [-1]] in
+  Forall (fun row => length row = ncols X) X /\
+  lasso_valid ROps (length X) (ncols X) (length [1; -1]) 2 (1 / 10) 1 = true /\
+  design false X = Some X /\
+  optimize ROps X [1; -1] (2 * IZR (Z.of_nat (length X))) 1 (1 / 10) = Some ([0], ExitGap, 2).
+Proof. exact ex_lasso_fit_exec_hyps. Qed.
+
+Theorem C08_enet_fit_exec_certified : forall X y alpha l1_ratio normalize tol max_iter Z wt d,
+  Forall (fun row => length row = ncols X) X ->
+  length y = length X -> 0 <= tol ->
+  design normalize X = Some Z ->
+  let nf := IZR (Z.of_nat (length X)) in
+  let l1 := alpha * l1_ratio * nf in
+  let l2 := alpha * (1 - l1_ratio) * nf in
+  0 <= l2 ->
+  let '(X2, y2, gamma) := augment ROps Z y l2 in
+  optimize ROps X2 y2 (l1 * gamma) max_iter tol = Some (wt, ExitGap, d) ->
+  let w := map (fun wi => gamma * wi) wt in
+  exists coef b,
+    enet_fit ROps X y alpha l1_ratio normalize tol max_iter = Some (coef, b) /\
+    predict ROps X coef b = map (fun v => v + vmean ROps y) (matvec ROps Z w) /\
+    forall w', length w' = ncols X ->
+      enet_objective ROps Z (center ROps y) (enet_l1_eff l1 gamma) l2 w
+      <= (1 + tol) * enet_objective ROps Z (center ROps y) (enet_l1_eff l1 gamma) l2 w'.
+Proof. exact enet_fit_exec_certified. Qed.
+
+Example C08_enet_fit_exec_certified_sat :
+  let X := [[1]; [-1]] in
+  let y := [1; -1] in
+  let nf := IZR (Z.of_nat (length X)) in
+  0 <= 2 * (1 - 1) * nf /\ design false X = Some X /\
+  let '(X2, y2, gamma) := augment ROps X y (2 * (1 - 1) * nf) in
+  optimize ROps X2 y2 (2 * 1 * nf * gamma) 1 (1 / 10) = Some ([0], ExitGap, 2).
+Proof. exact ex_enet_fit_exec_hyps. Qed.
+
+(* ElasticNet::fit as executed reduces to the Lasso machinery on the augmented data
+   (X2, y2, gamma) = augment_x_and_y(Z, y, l2), Z = `design normalize X`:
+   (i) enet_fit = `optimize` on (X2, y2) with the penalty l1*gamma, then the code's rescaling
+   (`enet_of_opt`: w = gamma * w~, division by the column deviations and intercept
+   mean(y) - sum w_i mean_i under normalisation, (w, mean y) otherwise); (ii) whenever Lasso::fit
+   accepts the augmented problem, that is Lasso::fit(X2, y2, alpha2, normalize = false) with
+   alpha2 = l1*gamma/(n+p) (so that alpha2 * rows(X2) = l1*gamma) followed by the same rescaling, and
+   that Lasso's own intercept is 0; it accepts it for every non-empty X, alpha*l1_ratio >= 0, tol > 0,
+   max_iter > 0; (iii) the Lasso objective of the augmented problem at w~ IS the elastic-net objective
+   at gamma*w~ (factor 1: the augmented design is already multiplied by gamma), for the nominal
+   penalty and for the floored penalty max(l1*gamma, eps) that `optimize` really uses. *)
+Theorem C08_enet_reduces_to_lasso : forall X y alpha l1_ratio normalize tol max_iter Z,
+  length y = length X -> design normalize X = Some Z ->
+  let nf := IZR (Z.of_nat (length X)) in
+  let l1 := alpha * l1_ratio * nf in
+  let l2 := alpha * (1 - l1_ratio) * nf in
+  0 <= l2 ->
+  let '(X2, y2, gamma) := augment ROps Z y l2 in
+  let alpha2 := l1 * gamma / IZR (Z.of_nat (length X2)) in
+  (length X2 = (length X + ncols X)%nat /\ ncols X2 = ncols X /\ length y2 = length X2 /\
+   gamma = 1 / R_sqrt.sqrt (1 + l2) /\ 0 < gamma) /\
+  enet_fit ROps X y alpha l1_ratio normalize tol max_iter =
+    enet_of_opt normalize X (vmean ROps y) gamma (opt_w (optimize ROps X2 y2 (l1 * gamma) max_iter tol)) /\
+  (lasso_valid ROps (length X2) (ncols X2) (length y2) alpha2 tol max_iter = true ->
+     enet_fit ROps X y alpha l1_ratio normalize tol max_iter =
+       enet_of_opt normalize X (vmean ROps y) gamma
+         (match lasso_fit ROps X2 y2 alpha2 false tol max_iter with Some (wt, _) => Some wt | None => None end) /\
+     forall wt b2, lasso_fit ROps X2 y2 alpha2 false tol max_iter = Some (wt, b2) -> b2 = 0) /\
+  (X <> [] -> 0 <= alpha * l1_ratio -> 0 < tol -> max_iter <> 0%nat ->
+     lasso_valid ROps (length X2) (ncols X2) (length y2) alpha2 tol max_iter = true) /\
+  (forall wt, length wt = ncols X ->
+     lasso_objective ROps X2 (center ROps y2) (l1 * gamma) wt =
+     enet_objective ROps Z (center ROps y) l1 l2 (map (fun wi => gamma * wi) wt)) /\
+  (forall wt, length wt = ncols X ->
+     lasso_objective ROps X2 (center ROps y2) (lam_used (l1 * gamma)) wt =
+     enet_objective ROps Z (center ROps y) (enet_l1_eff l1 gamma) l2 (map (fun wi => gamma * wi) wt)).
+Proof. exact enet_reduces_to_lasso. Qed.
+
+Example C08_enet_reduces_to_lasso_sat :
+  let X := [[1; 2]; [3; 4]; [5; 7]] in
+  let y := [1; 2; 4] in
+  length y = length X /\ design false X = Some X /\
+  0 <= 1 * (1 - 1 / 2) * IZR (Z.of_nat (length X)) /\
+  X <> [] /\ 0 <= 1 * (1 / 2) /\ 0 < 1 / 1000 /\ 100%nat <> 0%nat.
+Proof. exact ex_enet_reduces_hyps. Qed.
+
+(* ------------------------------------------------------------------------------------------- *)
+(* 7. partial correctness of the preconditioned BiCG solver (bg_solver.rs solve_mut)             *)
+(* ------------------------------------------------------------------------------------------- *)
+(* For EVERY linear operator A on vectors of length m (`linear_on`: A(v + a*u) = A v + a * A u) and
+   every preconditioner M returning m numbers (nothing else is asked of M): the vector r carried by
+   `pcg_loop` is the residual b - A x of the iterate x it carries, so whatever `solve_mut` returns
+   after at least one pass (max_iter >= 2: `for iter in 1..max_iter`), the reported err is
+   |b - A x'|_2 / |b|_2 for the returned x', and when err <= tol (the loop's exit test; the other way
+   out is the exhausted iteration budget) |b - A x'|_2 <= tol * |b|_2.  Not proved: that the test is
+   ever met (convergence of BiCG), and nothing about zero denominators bkden / akden. *)
+Theorem C08_pcg_residual : forall (A M : list R -> list R) (m : nat) b x tol max_iter err x',
+  linear_on m A -> (forall v, length (M v) = m) -> length b = m -> length x = m ->
+  (2 <= max_iter)%nat ->
+  solve_mut ROps A M b x tol max_iter = Some (err, x') ->
+  0 < tol /\ length x' = m /\
+  err = norm2 ROps (vsub ROps b (A x')) / norm2 ROps b /\
+  (err <= tol -> 0 < norm2 ROps b ->
+   norm2 ROps (vsub ROps b (A x')) <= tol * norm2 ROps b).
+Proof. exact solve_mut_residual. Qed.
+
+(* The optimiser's instance: `ip_mat_vec` (the Hessian of the barrier objective, section 5) is linear
+   on R^2p; on a state with |w| = |u| = p and a warm start of 2p entries, whatever `pcg_solver`
+   returns has 2p entries, the flag it reports is `pitr == 0 && !(err > pcgtol)` for
+   err = |grad - H dxu|_2 / |grad|_2, so a true flag certifies that the direction solves the Newton
+   system H dxu = grad up to pcg_tolerance * |grad|_2. *)
+Theorem C08_pcg_solver_residual : forall X lam k st z gap flag dxu p,
+  length (st_w st) = p -> length (st_u st) = p -> length (st_dxu st) = (2 * p)%nat ->
+  pcg_solver ROps X lam k st z gap = Some (flag, dxu) ->
+  let nw := newton_system ROps X lam (st_t st) (st_w st) (st_u st) z in
+  let H := ip_mat_vec ROps p (gram ROps p X) nw in
+  let pcgtol := pcg_tolerance ROps k (st_pitr0 st) gap (nw_grad nw) in
+  let err := norm2 ROps (vsub ROps (nw_grad nw) (H dxu)) / norm2 ROps (nw_grad nw) in
+  linear_on (2 * p) H /\
+  0 < pcgtol /\ length dxu = (2 * p)%nat /\
+  flag = (st_pitr0 st && negb (Rltb pcgtol err))%bool /\
+  (flag = true -> 0 < norm2 ROps (nw_grad nw) ->
+   norm2 ROps (vsub ROps (nw_grad nw) (H dxu)) <= pcgtol * norm2 ROps (nw_grad nw)).
+Proof.
+  intros X lam k st z gap flag dxu p Hw Hu Hd Hs nw H pcgtol err.
+  split; [apply ip_mat_vec_linear | exact (pcg_solver_residual X lam k st z gap flag dxu p Hw Hu Hd Hs)].
+Qed.
+
+(* the 1-column problem X = [[1]] (X^T X = 1: the preconditioner is exact): on the state of
+   C08_newton_sat the code's solver returns the exact Newton direction (1/2, 1/2) after one pass and
+   keeps its flag *)
+Example C08_pcg_solver_sat :
+  pcg_solver ROps [[1]] 1 0%nat ex_state (residual ROps [[1]] [1] [0]) 1 = Some (true, [1 / 2; 1 / 2]) /\
+  length (st_w ex_state) = 1%nat /\ length (st_u ex_state) = 1%nat /\ length (st_dxu ex_state) = 2%nat.
+Proof. exact ex_pcg_solver. Qed.
+
+Example C08_pcg_residual_sat : forall tol, 0 < tol ->
+  let nw := newton_system ROps [[1]] 1 1 [0] [1] (residual ROps [[1]] [1] [0]) in
+  linear_on 2 (ip_mat_vec ROps 1 (gram ROps 1 [[1]]) nw) /\
+  solve_mut ROps (ip_mat_vec ROps 1 (gram ROps 1 [[1]]) nw) (ip_precond ROps 1 nw) (nw_grad nw) [0; 0]
+            tol pcgmaxi = Some (0, [1 / 2; 1 / 2]).
+Proof. intros tol Htol nw. split; [apply (ip_mat_vec_linear 1) | exact (ex_pcg_solve_tol tol Htol)]. Qed.
